@@ -41,7 +41,7 @@ extern "C" __attribute__((no_sanitize("address"))) long syscall(long nr, ...) {
 void h_configure(HConfig &cfg) {
   cfg.property = "C10"; cfg.name = "c10_binding";
   cfg.rule = "case = topology (synthetic or corpus XML, with/without IS_THISSYSTEM, optionally restricted so that complete != topology set) + 14 binding calls over all cpubind/membind entry points (set/get for this process, a pid, a thread, an area incl. empty areas, alloc_membind and alloc_membind_policy, last-location and memlocation getters, support bits vs ENOSYS) x set shapes {subset, topology, complete, empty, outside complete, infinite, full} x flag words (legal + unknown bits) x policies (legal, MIXED, garbage) x BYNODESET; every 8th case is a live round trip on the native topology; non-trivial = a call passed validation with a proper subset, or was rejected for a reason other than an empty set; distinct by hash of the decoded case";
-  cfg.head_len = 700; cfg.op_len = 1; cfg.max_ops = 1; cfg.leak_check = false;
+  cfg.head_len = 900; cfg.op_len = 1; cfg.max_ops = 1; cfg.leak_check = false;
 }
 
 static bool mask_equals(const std::vector<unsigned char> &m, hwloc_const_bitmap_t b) { for (unsigned i = 0; i < m.size() * 8; i++) if ((bool)((m[i / 8] >> (i % 8)) & 1) != (hwloc_bitmap_isset(b, i) != 0)) return false; return hwloc_bitmap_weight(b) >= 0 && hwloc_bitmap_last(b) < (int)m.size() * 8; }
@@ -54,6 +54,8 @@ static hwloc_bitmap_t shape_set(Draw &d, hwloc_const_bitmap_t topo, hwloc_const_
   else if (shape == 5) hwloc_bitmap_set_range(set, d.range(0, 3), -1); else if (shape == 6) hwloc_bitmap_fill(set); else { hwloc_bitmap_copy(set, topo); int l = hwloc_bitmap_last(topo); if (l >= 0 && hwloc_bitmap_weight(topo) > 1) hwloc_bitmap_clr(set, l); }
   return set;
 }
+// output bitmaps handed to the getters are never clean: a getter must overwrite, not accumulate
+static hwloc_bitmap_t dirty_bitmap(Draw &d) { hwloc_bitmap_t b = hwloc_bitmap_alloc(); int m = d.range(0, 3); if (m == 1) hwloc_bitmap_fill(b); else if (m == 2) { hwloc_bitmap_set_range(b, 0, 70); hwloc_bitmap_set(b, 200); } else if (m == 3) hwloc_bitmap_set_range(b, d.range(0, 40), -1); return b; }
 static const char *shape_name[] = {"subset", "topology", "complete", "empty", "outside-complete", "infinite", "full", "all-but-last"};
 
 static void live_part(Case &c, Draw &d) {
@@ -67,8 +69,13 @@ static void live_part(Case &c, Draw &d) {
   hwloc_const_bitmap_t allowed = hwloc_topology_get_allowed_cpuset(t); hwloc_bitmap_t cur = hwloc_bitmap_alloc(); CHECK(c, hwloc_get_cpubind(t, cur, HWLOC_CPUBIND_THREAD) == 0, "live_get", "get_cpubind failed errno %d", errno);
   for (int k = 0; k < 6; k++) { hwloc_bitmap_t s = hwloc_bitmap_alloc(); int f; hwloc_bitmap_foreach_begin(f, allowed) { if (hwloc_bitmap_isset(cur, f) && d.chance(1, 2)) hwloc_bitmap_set(s, f); } hwloc_bitmap_foreach_end(); if (hwloc_bitmap_iszero(s)) hwloc_bitmap_set(s, hwloc_bitmap_first(cur));
     int r = hwloc_set_cpubind(t, s, HWLOC_CPUBIND_THREAD); CHECK(c, r == 0, "live_set", "set_cpubind(THREAD, %s) failed errno %d", bstr(s).c_str(), errno);
-    hwloc_bitmap_t g = hwloc_bitmap_alloc(); CHECK(c, hwloc_get_cpubind(t, g, HWLOC_CPUBIND_THREAD) == 0 && hwloc_bitmap_isequal(g, s), "live_roundtrip", "bound the thread to %s, read back %s", bstr(s).c_str(), bstr(g).c_str());
-    hwloc_bitmap_t loc = hwloc_bitmap_alloc(); if (hwloc_get_last_cpu_location(t, loc, HWLOC_CPUBIND_THREAD) == 0) CHECK(c, hwloc_bitmap_isincluded(loc, s) && !hwloc_bitmap_iszero(loc), "live_last_location", "last cpu location %s is not inside the binding %s", bstr(loc).c_str(), bstr(s).c_str());
+    hwloc_bitmap_t g = dirty_bitmap(d); CHECK(c, hwloc_get_cpubind(t, g, HWLOC_CPUBIND_THREAD) == 0 && hwloc_bitmap_isequal(g, s), "live_roundtrip", "bound the thread to %s, read back %s", bstr(s).c_str(), bstr(g).c_str());
+    // this child has a single thread, so the process-wide views equal the thread's; output bitmaps are dirty on purpose
+    { static const int pf[] = {0, HWLOC_CPUBIND_PROCESS, HWLOC_CPUBIND_THREAD, HWLOC_CPUBIND_PROCESS | HWLOC_CPUBIND_STRICT}; for (int f2 : pf) { hwloc_bitmap_t g2 = dirty_bitmap(d); int r2 = hwloc_get_cpubind(t, g2, f2); CHECK(c, r2 == 0 && hwloc_bitmap_isequal(g2, s), "live_roundtrip", "bound the only thread to %s, get_cpubind(flags 0x%x) into a non-empty bitmap returned %d with %s", bstr(s).c_str(), f2, r2, bstr(g2).c_str()); hwloc_bitmap_free(g2); }
+      hwloc_bitmap_t g3 = dirty_bitmap(d); int r3 = hwloc_get_proc_cpubind(t, getpid(), g3, 0); CHECK(c, r3 == 0 && hwloc_bitmap_isequal(g3, s), "live_roundtrip", "get_proc_cpubind(self) returned %d with %s, the thread is bound to %s", r3, bstr(g3).c_str(), bstr(s).c_str()); hwloc_bitmap_free(g3);
+      hwloc_bitmap_t g4 = dirty_bitmap(d); int r4 = hwloc_get_thread_cpubind(t, pthread_self(), g4, 0); CHECK(c, r4 == 0 && hwloc_bitmap_isequal(g4, s), "live_roundtrip", "get_thread_cpubind(self) returned %d with %s, the thread is bound to %s", r4, bstr(g4).c_str(), bstr(s).c_str()); hwloc_bitmap_free(g4);
+      if (k & 1) { int r5 = hwloc_set_cpubind(t, s, HWLOC_CPUBIND_PROCESS); hwloc_bitmap_t g5 = dirty_bitmap(d); CHECK(c, r5 == 0 && hwloc_get_cpubind(t, g5, HWLOC_CPUBIND_THREAD) == 0 && hwloc_bitmap_isequal(g5, s), "live_roundtrip", "set_cpubind(PROCESS, %s) returned %d, the thread then reads %s", bstr(s).c_str(), r5, bstr(g5).c_str()); hwloc_bitmap_free(g5); } }
+    hwloc_bitmap_t loc = dirty_bitmap(d); if (hwloc_get_last_cpu_location(t, loc, HWLOC_CPUBIND_THREAD) == 0) CHECK(c, hwloc_bitmap_isincluded(loc, s) && !hwloc_bitmap_iszero(loc), "live_last_location", "last cpu location %s is not inside the binding %s", bstr(loc).c_str(), bstr(s).c_str());
     hwloc_bitmap_free(g); hwloc_bitmap_free(loc); hwloc_bitmap_free(s); c.cls("live:roundtrip"); }
   real_syscall()(SYS_sched_setaffinity, 0L, (long)sizeof orig, &orig); hwloc_bitmap_free(cur); hwloc_topology_destroy(t); g_record = true; c.nontrivial();
 }
@@ -80,6 +87,8 @@ void h_run(Case &c) {
   bool this_sys = d.chance(2, 3); if (this_sys) sp.flags |= HWLOC_TOPOLOGY_FLAG_IS_THISSYSTEM; if (d.chance(1, 3)) sp.flags |= HWLOC_TOPOLOGY_FLAG_INCLUDE_DISALLOWED; c.desc(sp.text());
   hwloc_topology_t t; hwloc_topology_init(&t); g_record = true; if (apply_spec_and_load(c, t, sp) < 0) { hwloc_topology_destroy(t); c.discard(); }
   if (d.chance(1, 2)) { hwloc_bitmap_t s = hwloc_bitmap_dup(hwloc_topology_get_topology_cpuset(t)); hwloc_bitmap_clr(s, hwloc_bitmap_last(s)); if (d.chance(1, 2)) hwloc_bitmap_clr(s, hwloc_bitmap_first(s)); if (!hwloc_bitmap_iszero(s) && hwloc_topology_restrict(t, s, 0) == 0) c.desc(" restricted(complete != topology set)"); hwloc_bitmap_free(s); }
+  // a duplicate describes the same (foreign or native) system as its source: same hooks, same rules
+  if (d.chance(1, 4)) { hwloc_topology_t t2; CHECK(c, hwloc_topology_dup(&t2, t) == 0, "harness_dup", "dup failed"); hwloc_topology_destroy(t); t = t2; c.desc(" dup"); c.cls("topology:duplicate"); }
   bool nontrivial = false;
   for (int q = 0; q < 14; q++) {
     bool mem = d.chance(1, 2); bool bynode = mem && d.chance(1, 2);
@@ -95,14 +104,14 @@ void h_run(Case &c) {
       else { CHECK(c, rc == 0 || e == ENOSYS, "set_ok", "%s returned %d errno %d", what.c_str(), rc, e); hwloc_const_bitmap_t expect = hwloc_bitmap_isincluded(topo, set) ? comp : set;
         for (auto &r : g_calls) if (r.nr == NR_SETAFF || r.nr == NR_PSETAFF) CHECK(c, mask_equals(r.mask, expect), "os_mask", "%s: the mask handed to the OS is {%s}, expected %s", what.c_str(), maskstr(r.mask).c_str(), bstr(expect).c_str());
         if (rc == 0) { CHECK(c, nsets >= 1, "os_called", "%s succeeded without any affinity system call", what.c_str()); if (!hwloc_bitmap_isincluded(topo, set)) nontrivial = true;
-          hwloc_bitmap_t g = hwloc_bitmap_alloc(); int gflags = flags & ~(HWLOC_CPUBIND_STRICT | HWLOC_CPUBIND_NOMEMBIND); int gr = entry == 0 ? hwloc_get_cpubind(t, g, gflags) : entry == 1 ? hwloc_get_proc_cpubind(t, getpid(), g, gflags) : hwloc_get_thread_cpubind(t, pthread_self(), g, gflags);
+          hwloc_bitmap_t g = dirty_bitmap(d); int gflags = flags & ~(HWLOC_CPUBIND_STRICT | HWLOC_CPUBIND_NOMEMBIND); int gr = entry == 0 ? hwloc_get_cpubind(t, g, gflags) : entry == 1 ? hwloc_get_proc_cpubind(t, getpid(), g, gflags) : hwloc_get_thread_cpubind(t, pthread_self(), g, gflags);
           if (gr == 0) CHECK(c, hwloc_bitmap_isequal(g, expect), "get_after_set", "%s then get returned %s, expected %s", what.c_str(), bstr(g).c_str(), bstr(expect).c_str()); hwloc_bitmap_free(g); } c.cls("cpubind:this-system"); }
       // get-calls: unknown flags rejected; foreign topologies report the whole machine
-      { hwloc_bitmap_t g = hwloc_bitmap_alloc(); errno = 0; int gr = hwloc_get_cpubind(t, g, flags); if (badflags) CHECK(c, gr == -1 && errno == EINVAL, "reject_einval", "get_cpubind(flags 0x%x) returned %d errno %d", flags, gr, errno); else if (!this_sys) CHECK(c, gr == 0 && hwloc_bitmap_isequal(g, hwloc_topology_get_complete_cpuset(t)), "foreign_get", "get_cpubind on a foreign topology returned %d with %s, expected the complete set", gr, bstr(g).c_str());
-        errno = 0; gr = hwloc_get_last_cpu_location(t, g, flags); if (badflags) CHECK(c, gr == -1 && errno == EINVAL, "reject_einval", "get_last_cpu_location(flags 0x%x) returned %d errno %d", flags, gr, errno); else if (!this_sys) CHECK(c, gr == 0 && hwloc_bitmap_isequal(g, hwloc_topology_get_complete_cpuset(t)), "foreign_get", "get_last_cpu_location on a foreign topology returned %d with %s", gr, bstr(g).c_str());
+      { hwloc_bitmap_t g = dirty_bitmap(d); errno = 0; int gr = hwloc_get_cpubind(t, g, flags); if (badflags) CHECK(c, gr == -1 && errno == EINVAL, "reject_einval", "get_cpubind(flags 0x%x) returned %d errno %d", flags, gr, errno); else if (!this_sys) CHECK(c, gr == 0 && hwloc_bitmap_isequal(g, hwloc_topology_get_complete_cpuset(t)), "foreign_get", "get_cpubind on a foreign topology returned %d with %s, expected the complete set", gr, bstr(g).c_str());
+        { hwloc_bitmap_t g2 = dirty_bitmap(d); hwloc_bitmap_copy(g, g2); hwloc_bitmap_free(g2); } errno = 0; gr = hwloc_get_last_cpu_location(t, g, flags); if (badflags) CHECK(c, gr == -1 && errno == EINVAL, "reject_einval", "get_last_cpu_location(flags 0x%x) returned %d errno %d", flags, gr, errno); else if (!this_sys) CHECK(c, gr == 0 && hwloc_bitmap_isequal(g, hwloc_topology_get_complete_cpuset(t)), "foreign_get", "get_last_cpu_location on a foreign topology returned %d with %s", gr, bstr(g).c_str());
         // the per-process / per-thread getters follow the same rules; a foreign topology never reaches the OS; ENOSYS only without the advertised support
         const struct hwloc_topology_support *sup = hwloc_topology_get_support(t);
-        for (int ge = 0; ge < 3; ge++) { static const char *gn[] = {"get_proc_cpubind", "get_thread_cpubind", "get_proc_last_cpu_location"}; g_calls.clear(); errno = 0; hwloc_bitmap_zero(g);
+        for (int ge = 0; ge < 3; ge++) { static const char *gn[] = {"get_proc_cpubind", "get_thread_cpubind", "get_proc_last_cpu_location"}; g_calls.clear(); errno = 0; { hwloc_bitmap_t g2 = dirty_bitmap(d); hwloc_bitmap_copy(g, g2); hwloc_bitmap_free(g2); }
           gr = ge == 0 ? hwloc_get_proc_cpubind(t, getpid(), g, flags) : ge == 1 ? hwloc_get_thread_cpubind(t, pthread_self(), g, flags) : hwloc_get_proc_last_cpu_location(t, getpid(), g, flags); int ge_errno = errno;
           if (badflags) { CHECK(c, gr == -1 && ge_errno == EINVAL, "reject_einval", "%s(flags 0x%x) returned %d errno %d", gn[ge], flags, gr, ge_errno); CHECK(c, g_calls.empty(), "reject_before_os", "%s(flags 0x%x): %zu system calls for a rejected request", gn[ge], flags, g_calls.size()); }
           else if (!this_sys) { CHECK(c, gr == 0 && hwloc_bitmap_isequal(g, hwloc_topology_get_complete_cpuset(t)), "foreign_get", "%s on a foreign topology returned %d with %s, expected the complete set", gn[ge], gr, bstr(g).c_str()); CHECK(c, g_calls.empty(), "foreign_no_effect", "%s on a foreign topology reached the OS", gn[ge]); }
@@ -143,14 +152,14 @@ void h_run(Case &c) {
         for (auto &r : g_calls) if ((r.nr == SYS_mbind || r.nr == SYS_set_mempolicy) && !r.mask.empty() && (pol == HWLOC_MEMBIND_BIND || pol == HWLOC_MEMBIND_INTERLEAVE || pol == HWLOC_MEMBIND_WEIGHTED_INTERLEAVE)) { bool any = false; for (auto b : r.mask) if (b) any = true; if (any) CHECK(c, mask_equals(r.mask, expect), "os_mask", "%s: the node mask handed to the OS is {%s}, expected %s", what.c_str(), maskstr(r.mask).c_str(), bstr(expect).c_str()); }
         CHECK(c, rc == 0 || e == ENOSYS || e == EXDEV || e == EINVAL || e == ENOMEM, "set_ok", "%s returned %d errno %d", what.c_str(), rc, e); if (rc == 0 && !hwloc_bitmap_isincluded(topo, set)) nontrivial = true; hwloc_bitmap_free(expect); c.cls("membind:this-system"); }
       if (p) hwloc_free(t, p, 4096);
-      { hwloc_bitmap_t g = hwloc_bitmap_alloc(); hwloc_membind_policy_t gp = (hwloc_membind_policy_t)55; errno = 0; int gflags = flags & ~(HWLOC_MEMBIND_STRICT | HWLOC_MEMBIND_MIGRATE | HWLOC_MEMBIND_NOCPUBIND); if (badflags) gflags = flags; int gr = hwloc_get_membind(t, g, &gp, gflags);
+      { hwloc_bitmap_t g = dirty_bitmap(d); hwloc_membind_policy_t gp = (hwloc_membind_policy_t)55; errno = 0; int gflags = flags & ~(HWLOC_MEMBIND_STRICT | HWLOC_MEMBIND_MIGRATE | HWLOC_MEMBIND_NOCPUBIND); if (badflags) gflags = flags; int gr = hwloc_get_membind(t, g, &gp, gflags);
         if (badflags) CHECK(c, gr == -1 && errno == EINVAL, "reject_einval", "get_membind(flags 0x%x) returned %d errno %d", gflags, gr, errno);
         else if (!this_sys) { // the whole machine: the complete nodeset, or by cpuset the CPUs local to it (between the topology and the complete cpuset)
           if (bynode) CHECK(c, gr == 0 && hwloc_bitmap_isequal(g, hwloc_topology_get_complete_nodeset(t)), "foreign_get", "get_membind(BYNODESET) on a foreign topology returned %d with %s", gr, bstr(g).c_str());
           else { hwloc_bitmap_t whole = hwloc_bitmap_alloc(); hwloc_cpuset_from_nodeset(t, whole, hwloc_topology_get_complete_nodeset(t)); CHECK(c, gr == 0 && hwloc_bitmap_isequal(g, whole), "foreign_get", "get_membind on a foreign topology returned %d with %s, the CPUs local to the complete nodeset are %s", gr, bstr(g).c_str(), bstr(whole).c_str()); hwloc_bitmap_free(whole); } }
         // the per-process and per-area getters: same flag validation, an empty area cannot be queried for its binding (EINVAL) and has no location (0), a foreign topology reports the whole machine without reaching the OS
         hwloc_bitmap_t whole = hwloc_bitmap_alloc(); if (bynode) hwloc_bitmap_copy(whole, hwloc_topology_get_complete_nodeset(t)); else hwloc_cpuset_from_nodeset(t, whole, hwloc_topology_get_complete_nodeset(t));
-        for (int ge = 0; ge < 3; ge++) { static const char *gn[] = {"get_proc_membind", "get_area_membind", "get_area_memlocation"}; size_t alen = d.chance(1, 4) ? 0 : sizeof area; g_calls.clear(); errno = 0; hwloc_bitmap_zero(g); gp = (hwloc_membind_policy_t)55;
+        for (int ge = 0; ge < 3; ge++) { static const char *gn[] = {"get_proc_membind", "get_area_membind", "get_area_memlocation"}; size_t alen = d.chance(1, 4) ? 0 : sizeof area; g_calls.clear(); errno = 0; { hwloc_bitmap_t g2 = dirty_bitmap(d); hwloc_bitmap_copy(g, g2); hwloc_bitmap_free(g2); } gp = (hwloc_membind_policy_t)55;
           gr = ge == 0 ? hwloc_get_proc_membind(t, getpid(), g, &gp, gflags) : ge == 1 ? hwloc_get_area_membind(t, area, alen, g, &gp, gflags) : hwloc_get_area_memlocation(t, area, alen, g, gflags); int ge_errno = errno; size_t ncalls = g_calls.size();
           if (badflags) { CHECK(c, gr == -1 && ge_errno == EINVAL, "reject_einval", "%s(flags 0x%x) returned %d errno %d", gn[ge], gflags, gr, ge_errno); CHECK(c, ncalls == 0, "reject_before_os", "%s(flags 0x%x): %zu system calls for a rejected request", gn[ge], gflags, ncalls); }
           else if (ge == 1 && alen == 0) { CHECK(c, gr == -1 && ge_errno == EINVAL, "empty_area", "get_area_membind of an empty area returned %d errno %d", gr, ge_errno); CHECK(c, ncalls == 0, "reject_before_os", "get_area_membind of an empty area reached the OS"); }
